@@ -7,7 +7,6 @@
 package vhttp
 
 import (
-	"time"
 	"bytes"
 	"context"
 	"errors"
@@ -19,6 +18,7 @@ import (
 	"strconv"
 	"strings"
 	"sync"
+	"time"
 
 	"worldcoin/gnark-mbu/verifrt/vsched"
 )
@@ -229,7 +229,7 @@ type Server struct {
 	// before the response has been flushed (an explored choice), in which case the
 	// connection is dropped after the handler returned (and after the metrics were updated).
 	ReadTimeout, ReadHeaderTimeout, WriteTimeout, IdleTimeout time.Duration
-	MaxHeaderBytes                                             int
+	MaxHeaderBytes                                            int
 
 	inShutdown    bool
 	listeners     map[*listener]bool
@@ -432,14 +432,76 @@ func (srv *Server) RegisterOnShutdown(f func()) {}
 
 type Response struct {
 	Before, After map[string][2]int
-	Outcome string // refused | reset | aborted | complete
-	Status  int
-	Header  http.Header
-	Body    []byte
+	Outcome       string // refused | reset | aborted | complete
+	Status        int
+	Header        http.Header
+	Body          []byte
+}
+
+// Stall models a client that has sent its request headers but not yet the (whole) body: the handler's
+// first read of the body blocks until Release. Harnesses use it to hold any number of requests inside
+// their handlers ("in flight") without exploring how they got there.
+type Stall struct {
+	released bool
+	parked   int
+	q        []*vsched.Thread
+	awaiting []*vsched.Thread
+}
+
+func (s *Stall) Release() {
+	s.released = true
+	for _, t := range s.q {
+		t.Unblock()
+	}
+	s.q = nil
+}
+
+// Parked: handlers currently blocked reading a stalled body.
+func (s *Stall) Parked() int { return s.parked }
+
+// AwaitParked blocks the caller until k handlers are parked on the stalled body.
+func (s *Stall) AwaitParked(k int) {
+	t := vsched.Current()
+	for s.parked < k {
+		s.awaiting = append(s.awaiting, t)
+		t.Block(fmt.Sprintf("%d handlers reading a stalled body", k))
+	}
+}
+
+type stallBody struct {
+	s *Stall
+	r *bytes.Reader
+}
+
+func (b *stallBody) Read(p []byte) (int, error) {
+	if !b.s.released {
+		t := vsched.Current()
+		vsched.Sync("body:stalled")
+		b.s.parked++
+		for _, w := range b.s.awaiting {
+			w.Unblock()
+		}
+		b.s.awaiting = nil
+		for !b.s.released {
+			b.s.q = append(b.s.q, t)
+			t.Block("the rest of the request body")
+		}
+		b.s.parked--
+	}
+	return b.r.Read(p)
+}
+
+// DoStalled is Do with a body that arrives only after st.Release().
+func DoStalled(client, addr, method, path string, body []byte, st *Stall) *Response {
+	return do(client, addr, method, path, &stallBody{s: st, r: bytes.NewReader(body)})
 }
 
 // Do sends one request to addr from the calling thread and blocks for the outcome.
 func Do(client, addr, method, path string, body []byte) *Response {
+	return do(client, addr, method, path, bytes.NewReader(body))
+}
+
+func do(client, addr, method, path string, body io.Reader) *Response {
 	t := vsched.Current()
 	n := Net()
 	vsched.Sync("client:connect")
@@ -448,7 +510,7 @@ func Do(client, addr, method, path string, body []byte) *Response {
 		t.Note("client:refused")
 		return &Response{Outcome: "refused"}
 	}
-	req := httptest.NewRequest(method, "http://"+addr+path, bytes.NewReader(body))
+	req := httptest.NewRequest(method, "http://"+addr+path, body)
 	n.nconn++
 	c := &Conn{ID: n.nconn, Client: client, Req: req, Rec: httptest.NewRecorder(), State: "queued", waiter: t}
 	l.backlog = append(l.backlog, c)
